@@ -402,8 +402,11 @@ def run_e2e(case, res):
                                     icodes=icodes, origin=case["origin"])
         base_opts = ["--ff=AMBER", "--noopt", "--nodebump"]
     text = build.pdb_text(atoms)
-    for w in (False, True):
-        for k in (False, True):
+    # the --clean short cut writes its records from a branch of its own
+    bases = [base_opts] if case.get("box") else [base_opts, ["--clean"]]
+    for base_opts, w, k in [(b, w, k) for b in bases for w in (False, True)
+                            for k in (False, True)]:
+        if True:
             opts = list(base_opts)
             if w:
                 opts.append("--whitespace")
@@ -428,7 +431,8 @@ def run_e2e(case, res):
                            "name": a.name, "res_name": a.res_name,
                            "chain": a.chain_id, "res_seq": a.res_seq,
                            "icode": a.ins_code, "x": a.x, "y": a.y, "z": a.z,
-                           "charge": a.ffcharge, "radius": a.radius}
+                           "charge": a.ffcharge or 0.0,
+                           "radius": a.radius or 0.0}
                     check_line(rec, line, w, k, viol, res["events"])
                     res["nontrivial_set"].add(line)
             for sig, detail in viol:
